@@ -8,7 +8,7 @@ RULE = ("constant expression trees: every binary operator over every ordered pai
         "unsigned long literals at their boundaries, narrow types through casts, a character constant), every unary operator and every "
         "cast to the 10 integer types over the leaves, ?: over a sub-alphabet, depth-2 trees over a 6-leaf alphabet (seed-rotated root "
         "operator in quick); each expression is used as the initializer of a long long global, of a global of a rotating integer type "
-        "(conversion to the destination type), of a static local, as an enumerator, as a case label (against the run-time evaluation "
+        "(conversion to the destination type), of a static local, as an enumerator (first, and after other enumerators with a dependent later enumerator), as a case label (against the run-time evaluation "
         "of the same expression), as an array bound and as a bit-field width; distinct non-trivial = distinct (context, operator, value)")
 ASSUMPTIONS = ["oracle: gcc 12.2 -O0 on the same translation unit; expressions gcc rejects or flags (integer overflow in expression, division by "
                "zero, shift count negative/too large, left shift of a negative value) are excluded",
@@ -78,6 +78,10 @@ def cases(tier, seed):
         out.append(mk("long long f@(int a){ static %s s = %s; return s; }" % (t, e), "long long", "static-local/" + t, op, e))
         out.append(mk("int f@(int a){ long long v = a + (long long)%s; switch (v) { case %s: return 1; default: return 2; } }" % (e, e), "int", "case-label", op, e))
         out.append(mk("enum E@ { K@ = %s, N@ }; long long f@(int a){ return (long long)K@ * 3 + N@; }" % e, "long long", "enumerator", op, e))
+        # an explicit value after other enumerators (the implicit counter is then not what the expression gives), and an enumerator defined
+        # from an earlier one
+        out.append(mk("enum E@ { P@ = 5, Q@, K@ = %s, N@, M@ = K@ - K@, L@ }; long long f@(int a){ return (long long)K@ * 3 + N@ + 1000 * (long long)M@ + 100000 * (long long)L@ + Q@; }" % e,
+                      "long long", "enumerator-later", op, e))
     for e, op in small_exprs():
         out.append(mk("typedef char T@[%s]; unsigned long f@(int a){ return sizeof(T@); }" % e, "unsigned long", "array-bound", op, e))
         out.append(mk("int t@[%s]; unsigned long f@(int a){ return sizeof(t@) / sizeof(t@[0]); }" % e, "unsigned long", "array-bound-global", op, e))
